@@ -142,6 +142,61 @@ impl Mutation {
 	}
 }
 
+/// One action of a log record as laid out in the file (DESIGN appendix A).
+struct Action {
+	offset: usize,
+	code: u8,
+	len: usize,
+}
+
+/// Parse the actions of the record occupying `data[start..end]`
+/// (`[01][id u64] actions* [04][crc u32]`). Stops silently at anything unexpected.
+fn parse_actions(data: &[u8], start: usize, end: usize) -> Vec<Action> {
+	let mut out = vec![];
+	if end > data.len() || start + 9 + 5 > end || data[start] != 1 {
+		return out
+	}
+	let stop = end - 5;
+	let mut p = start + 9;
+	let u64_at = |p: usize| -> u64 { u64::from_le_bytes(data[p..p + 8].try_into().unwrap()) };
+	while p < stop {
+		let code = data[p];
+		let len = match code {
+			2 | 6 => {
+				if p + 19 > stop {
+					break
+				}
+				let mask = u64_at(p + 11);
+				19 + mask.count_ones() as usize * if code == 2 { 8 } else { 16 }
+			},
+			3 => {
+				if p + 13 > stop {
+					break
+				}
+				let slot = u64_at(p + 3);
+				let body = if slot == 0 {
+					16
+				} else {
+					match (data[p + 11], data[p + 12]) {
+						(0xff, 0xff) => 10,
+						(0xfd, 0xff) | (0xfe, 0xff) | (0xfd, 0x7f) => 4096,
+						(lo, hi) => 2 + (u16::from_le_bytes([lo, hi]) & 0x7fff) as usize,
+					}
+				};
+				11 + body
+			},
+			5 | 7 => 3,
+			_ => break,
+		};
+		if p + len > stop {
+			break
+		}
+		out.push(Action { offset: p, code, len });
+		p += len;
+	}
+	out
+}
+
 fn free_log_name(dir: &Path) -> String {
 	let used: Vec<String> = dbutil::list_files(dir).into_iter().map(|f| f.0).collect();
 	for i in 0..10_000 {
@@ -452,6 +507,55 @@ pub fn run(ctx: &Ctx, rep: &mut Report, rec: &Recorded, work: &Scratch, rng: &mu
 				muts.push((Mutation::ZeroTrailerAndFlip(f.clone(), r.end, x, rng.below(8) as u8), r.commits_before));
 			}
 		}
+		// structure-aware damage: the header fields of EVERY action of every record (action code,
+		// table id = size tier / index bits + column, chunk / slot number, entry mask, entry size)
+		// are overwritten with "interesting" values, incl. ids no table can have and masks with
+		// more bits than a chunk has entries. Validation runs before the checksum is verified and
+		// must reject all of it without panicking (slices, shifts, additions).
+		{
+			const VALUES: [u8; 18] = [0, 1, 2, 3, 4, 5, 6, 7, 8, 0x10, 0x32, 0x3f, 0x40, 0x7f, 0x80, 0xf1, 0xf2, 0xff];
+			let data = std::fs::read(base.join(f)).unwrap_or_default();
+			let mut cand: Vec<(u64, Vec<u8>, &'static str)> = vec![];
+			for r in records.iter().filter(|r| &r.file == f) {
+				for a in parse_actions(&data, r.start as usize, r.end as usize) {
+					let o = a.offset as u64;
+					for v in VALUES {
+						cand.push((o, vec![v], "action_code"));
+						cand.push((o + 1, vec![v], "table_id"));
+						cand.push((o + 2, vec![v], "table_id"));
+					}
+					if a.code == 2 || a.code == 3 || a.code == 6 {
+						// chunk / slot number: far beyond the table
+						cand.push((o + 3 + 7, vec![0xff], "chunk_number"));
+						cand.push((o + 3 + 3, vec![0x7f], "chunk_number"));
+						cand.push((o + 3, vec![0xff; 8], "chunk_number"));
+					}
+					if a.code == 2 || a.code == 6 {
+						// entry mask: all bits, the upper half, single high bits
+						cand.push((o + 11, vec![0xff; 8], "entry_mask"));
+						cand.push((o + 11 + 4, vec![0xff; 4], "entry_mask"));
+						cand.push((o + 11 + 7, vec![0x80], "entry_mask"));
+						cand.push((o + 11, vec![0; 8], "entry_mask"));
+					}
+					if a.code == 3 && a.len > 13 {
+						// entry size / marker field
+						for v in [[0xffu8, 0x7f], [0x00, 0x80], [0xff, 0xff], [0xfd, 0xff], [0xfe, 0xff], [0xfd, 0x7f], [0x00, 0x00], [0xf8, 0x7f]] {
+							cand.push((o + 11, v.to_vec(), "entry_size"));
+						}
+					}
+				}
+			}
+			let keep = ctx.tier.pick(40, 1200);
+			if cand.len() > keep {
+				rng.shuffle(&mut cand);
+				cand.truncate(keep);
+			}
+			for (x, v, _what) in cand {
+				if (x as usize) + v.len() <= data.len() && data[x as usize..x as usize + v.len()] != v[..] {
+					muts.push((Mutation::Overwrite(f.clone(), x, v), limit_at(f, x)));
+				}
+			}
+		}
 		// two-byte entry markers of value-table entries inside the records (tombstone ff ff,
 		// multipart fd ff / fe ff / fd 7f): every bit of both bytes
 		{
@@ -566,7 +670,10 @@ pub fn run(ctx: &Ctx, rep: &mut Report, rec: &Recorded, work: &Scratch, rng: &mu
 			_ => "other",
 		}), logs.len().min(4)));
 		match judge(rep, &img, &format!("mut{}", mi % 4)) {
-			None => {},
+			None => {
+				rep.notes.push(format!("timed out: {} ({})", m.show(), desc));
+				eprintln!("TIMEOUT-MUTATION {} :: {}", m.show(), desc);
+			},
 			Some(Err((sig, d))) => {
 				let scenario = match m {
 					_ if hides_first(m) => "first_pending_log_hidden",
